@@ -1,12 +1,12 @@
 #!/usr/bin/env python3
 """usage: c13_decode.py cases impl model [line] — show, per stimulus, the implementation's and the model's step of the first (or given) differing case"""
 import sys
-W={0:5,1:2,2:4,3:2,4:2,5:3,6:3,7:2,8:2,9:4,10:2,11:2,12:2,13:3,14:4,15:5,16:2,17:2}
-NAME={0:'Send p dial len tag',1:'Cancel rid',2:'Established p broken cap',3:'Closed p',4:'DialFail p',5:'Opened k gate',6:'OpenFail k unsup',7:'Unblock k',8:'BreakW k',9:'Respond k len tag',10:'Eof k',11:'Err k',12:'Advance dt',13:'InOpen p gate',14:'InReq k len tag',15:'URespond k len tag fb',16:'UReject k',17:'BreakConn p'}
-EW={1:2,2:4,3:3,4:5,5:4,7:3}
+W={0:8,1:2,2:4,3:2,4:2,5:4,6:3,7:2,8:2,9:4,10:2,11:2,12:2,13:4,14:4,15:5,16:2,17:2,18:6,19:6,20:6,21:4,22:1}
+NAME={0:'Send p dial len tag fbname fblen fbtag',1:'Cancel rid',2:'Established p broken cap',3:'Closed p',4:'DialFail p',5:'Opened k gate neg',6:'OpenFail k unsup',7:'Unblock k',8:'BreakW k',9:'Respond k len tag',10:'Eof k',11:'Err k',12:'Advance dt',13:'InOpen p gate neg',14:'InReq k len tag',15:'URespond k len tag fb',16:'UReject k',17:'BreakConn p',18:'Burst p dial n len tag',19:'RaceRespAdv k len tag dt first',20:'RaceRespCancel k len tag rid first',21:'RaceCancelAdv rid dt first',22:'DropManager'}
+EW={1:2,2:4,3:3,4:5,5:4,7:3,8:3,9:3,10:3,99:2}
 def ops(c):
-    i=4; out=[]
-    for _ in range(c[3]):
+    i=6; out=[]
+    for _ in range(c[5]):
         w=W[c[i]]; out.append(c[i:i+w]); i+=w
     return out
 def steps(t):
@@ -33,7 +33,7 @@ def steps(t):
     return out
 cases=open(sys.argv[1]).read().splitlines(); a=open(sys.argv[2]).read().splitlines(); b=open(sys.argv[3]).read().splitlines()
 idx=int(sys.argv[4]) if len(sys.argv)>4 else next(i for i,(x,y) in enumerate(zip(a,b)) if x!=y)
-c=list(map(int,cases[idx].split())); print("case #%d header max_inb=%d ndial=%d max_size=%d"%(idx,c[0],c[1],c[2]))
+c=list(map(int,cases[idx].split())); print("case #%d header max_inb=%d ndial=%d max_size=%d selfp=%d ccap=%d"%(idx,c[0],c[1],c[2],c[3],c[4]))
 sa=steps(list(map(int,a[idx].split()))); sb=steps(list(map(int,b[idx].split())))
 for k,o in enumerate(ops(c)):
     x=sa[k] if k<len(sa) else '-'; y=sb[k] if k<len(sb) else '-'
